@@ -169,6 +169,26 @@ def run(ctx):
                 ok = len(reach_loop) == 1
                 d = "exactly one successor of the `?` reaches the statement loop: %s" % ok
         ctx.inst("C19.R1", "evaluate_source#get_pairs", ok, d, es.loc(b))
+    # (i') every expression statement is evaluated: in the arm for Rule::expression nothing leaves (return / continue / break)
+    # before the evaluate_pairs call - a statement skipped by its shape (a lone name) cannot fail, and its failure is the exit status
+    hes1 = cli.hir_fn("blots::evaluate_source")
+    n_arm = 0
+    for m_ in H.walk(hes1["body"]):
+        if H.kind(m_) != "Match":
+            continue
+        for a_ in m_["arms"]:
+            if not any(H.last(v_) == "expression" for v_ in H.pat_variants(a_["pat"])):
+                continue
+            evs = [x for x in H.walk(a_["body"]) if H.kind(x) == "Call" and (x.get("def") or "").endswith("::evaluate_pairs")]
+            if not evs:
+                continue
+            first = min(x["sp"][3] for x in evs)
+            leaves = [H.loc(x) for x in H.walk(a_["body"]) if H.kind(x) in ("Ret", "Continue", "Break") and x["sp"][3] < first]
+            ctx.inst("C19.R1", "evaluate_source#expression-always-evaluated[%d]" % n_arm, False if leaves else True,
+                     "exits from the expression arm before evaluate_pairs: %s" % (leaves or "none"), H.loc(a_["body"]))
+            n_arm += 1
+    if n_arm == 0:
+        ctx.inst("C19.R1", "evaluate_source#expression-always-evaluated", None, "no `Rule::expression` arm calling evaluate_pairs found in evaluate_source", H.loc(hes1["body"]))
     # (ii) main: evaluate_source Err -> exit(!=0) without write_outputs; parse_json_inputs Err likewise
     k = 0
     for b in main.call_blocks():
